@@ -52,7 +52,7 @@ func (s *seqSpec) describe() map[string]interface{} {
 // frames that are not completely buffered (see probes.go): JSON sequences on
 // stream legs then stay lock-step with small frames so that the monitor does
 // not drown in consequences of that one defect.
-func genSpec(id int, rng *rand.Rand, restrictJSONStream bool) *seqSpec {
+func genSpec(id int, rng *rand.Rand, restrictJSONStream, oversize bool) *seqSpec {
 	variants := []struct{ leg, mode string }{{"pipe", "seq"}, {"tcp", "seq"}, {"pipe", "conc"}, {"tcp", "conc"}, {"http", "conc"}, {"nats", "conc"}, {"shared", "conc"}}
 	v := variants[id%7]
 	s := &seqSpec{id: id, leg: v.leg, mode: v.mode, proto: rig.Protocols[(id/7)%3], rng: rng, conns: 1}
@@ -84,10 +84,20 @@ func genSpec(id int, rng *rand.Rand, restrictJSONStream bool) *seqSpec {
 		nc = 1
 	}
 	s.perConn = make([][]*request, nc)
+	// NATS: one request whose (successful) reply exceeds the server's 1 MiB
+	// output buffer, never last: requests on the same and on other client
+	// connections follow it
+	overAt := -1
+	if v.leg == "nats" && oversize {
+		overAt = rng.Intn(n - 2)
+	}
 	unanswered := make([]bool, nc)
 	for i := 0; i < n; i++ {
 		c := rng.Intn(nc)
 		k := pickKind(rng, !stream)
+		if i == overAt {
+			k = kOversize
+		}
 		if opts.smallOnly && unanswered[c] {
 			for k == kFire || k == kFireFail {
 				k = pickKind(rng, false)
@@ -130,8 +140,9 @@ type seqResult struct {
 	mu           sync.Mutex
 	inconclusive []string
 	strays       []stray
-	closed       map[int]string // conn -> reason the server side ended it
-	desync       map[int]int    // stream conn -> index of the well-formed request the server rejected as malformed
+	closed       map[int]string  // conn -> reason the server side ended it
+	deadlock     *deadlockReport // NATS: workers proven parked for good on the write mutex
+	desync       map[int]int     // stream conn -> index of the well-formed request the server rejected as malformed
 	byOpid       map[string]*request
 	pf           thrift.TProtocolFactory
 	framesIn     int
@@ -489,8 +500,31 @@ func runSequence(s *seqSpec, broker *rig.NatsServer) *seqResult {
 			}
 		}
 		deadline := time.Now().Add(watchdog)
-		if !waitFor(deadline, func() bool { return atomic.LoadInt64(&leg.finished) >= sent }) {
-			res.inconc(fmt.Sprintf("sequence %d (nats/%s, %d workers): the server finished %d of %d frames within %v", s.id, s.proto, s.workers, atomic.LoadInt64(&leg.finished), sent, watchdog))
+		// wait for the finished-frame counter; when it stalls, look at the
+		// goroutines instead of at the clock
+		last, lastChange := int64(-1), time.Now()
+		for {
+			fin := atomic.LoadInt64(&leg.finished)
+			if fin >= sent {
+				break
+			}
+			if fin != last {
+				last, lastChange = fin, time.Now()
+			} else if time.Since(lastChange) > 1500*time.Millisecond {
+				if rep := diagnoseWriteMutex(leg.writeMu); rep != nil && len(rep.selfDeadlocked) > 0 {
+					res.mu.Lock()
+					res.deadlock = rep
+					res.mu.Unlock()
+					leg.wedged = true
+					break
+				}
+				lastChange = time.Now() // look again after the next stall
+			}
+			if time.Now().After(deadline) {
+				res.inconc(fmt.Sprintf("sequence %d (nats/%s, %d workers): the server finished %d of %d frames within %v", s.id, s.proto, s.workers, fin, sent, watchdog))
+				break
+			}
+			time.Sleep(500 * time.Microsecond)
 		}
 		// everything the workers published is at the broker after this round trip
 		if err := leg.sconn.FlushTimeout(20 * time.Second); err != nil {
@@ -595,9 +629,31 @@ func judge(run verdictSink, s *seqSpec, res *seqResult) {
 		}
 		skip[s.sentinel[c]] = true
 	}
+	if res.deadlock != nil {
+		// which request did it: the first reply-over-limit request without a reply
+		var culprit *request
+		unanswered := 0
+		for _, r := range s.reqs {
+			if !r.oneway && r.replyCount() == 0 {
+				unanswered++
+				if culprit == nil && r.kind == kOversize {
+					culprit = r
+				}
+			}
+		}
+		run.Violation("C14:server-deadlocked:"+s.leg+":write-mutex-reentered",
+			fmt.Sprintf("a server worker is parked for good in sync.Mutex.Lock on the processor's write mutex, which its own SendReply frame already holds (%d goroutine(s) re-entering, %d waiting on the mutex in all); %d two-way requests of the sequence were never answered although their handlers ran", len(res.deadlock.selfDeadlocked), res.deadlock.waiters, unanswered),
+			witness(culprit, map[string]interface{}{"goroutine": res.deadlock.selfDeadlocked[0], "unanswered_requests": unanswered,
+				"trigger": "a handler result whose reply frame exceeds the NATS server's 1 MiB output buffer (kind reply-over-limit)"}))
+		for _, r := range all {
+			if r.replyCount() == 0 {
+				skip[r] = true // consequences of the one event
+			}
+		}
+	}
 	for _, r := range all {
 		if skip[r] {
-			run.Add("requests_not_judged_after_desync", 1)
+			run.Add("requests_not_judged_after_desync_or_deadlock", 1)
 			continue
 		}
 		if r.sentinel && r.replyCount() == 0 && r.sendErr == "" {
